@@ -615,4 +615,17 @@ theorem saves_settled (dest : Path) (svs : List Save) :
       · exact Or.inr (Or.inl h)
       · exact Or.inr (Or.inr h)
 
+/-! ## The writes of a program -/
+
+theorem writesOf_append (a b : List Sys) : writesOf (a ++ b) = writesOf a ++ writesOf b := by
+  simp [writesOf, List.filterMap_append]
+
+theorem writesOf_map (fd : Nat) (l : List Content) : writesOf (l.map (Sys.write fd)) = l := by
+  induction l with
+  | nil => rfl
+  | cons d ds ih => simp only [writesOf] at ih ⊢; simp [ih]
+
+theorem writesOf_probe (pr : Probe) : writesOf (probeOps pr) = [] := by
+  cases ho : pr.outcome <;> simp [writesOf, probeOps, ho]
+
 end AGH.C14
